@@ -45,6 +45,10 @@ def hSwallow : Handler := fun _ _ b =>
   | (some body, b') => ⟨[ok200 (str (toString body.length))], b', true⟩
   | (none, b') => ⟨[ok200 (str "0")], b', true⟩
 def hClose : Handler := fun _ _ b => ⟨[⟨200, true, str "bye"⟩], b, true⟩
+def hCloseEmpty : Handler := fun _ _ b => ⟨[⟨200, true, []⟩], b, true⟩
+def hCloser : Handler := fun _ ps b =>
+  let n := ((param ps "n").bind natOfBytes).getD 0
+  ⟨[⟨200, true, List.replicate n 0x78⟩], b, true⟩
 def hErr : Handler := fun _ _ b => ⟨[], b, false⟩
 def hBigr : Handler := fun _ ps b =>
   let n := ((param ps "n").bind natOfBytes).getD 0
@@ -58,6 +62,7 @@ def harnessHook (r : Request) : HookOut :=
   | some v =>
     if v == str "drop" then .drop (some ⟨405, false, []⟩)
     else if v == str "dropclose" then .drop (some ⟨405, true, []⟩)
+    else if v == str "dropclosesend" then .drop (some ⟨405, true, []⟩)
     else .proceed
   | none => .proceed
 
@@ -66,8 +71,8 @@ def harnessCfg (max : Nat) : Cfg :=
     hook := some harnessHook
     routes := [(.post, str "/echo"), (.post, str "/noread"), (.post, str "/read/:k"), (.post, str "/early"),
                (.post, str "/swallow"), (.get, str "/close"), (.get, str "/err"), (.get, str "/bigr/:n"),
-               (.get, str "/p/:a/:b"), (.get, str "/errint")]
-    handler := fun i => [hEcho, hNoread, hReadK, hEarly, hSwallow, hClose, hErr, hBigr, hP, hErr].getD i hFallback
+               (.get, str "/p/:a/:b"), (.get, str "/errint"), (.get, str "/closeempty/:how"), (.get, str "/closer/:n")]
+    handler := fun i => [hEcho, hNoread, hReadK, hEarly, hSwallow, hClose, hErr, hBigr, hP, hErr, hCloseEmpty, hCloser].getD i hFallback
     fallback := hFallback }
 
 def showResp (r : Resp) : String := s!"R{r.status}:{if r.close then 1 else 0}:{hex r.body}"
